@@ -9,6 +9,8 @@ from vf import gen, sel as S
 
 ID = "C06"
 TITLE = "Voronoi FPS is an exact accelerator: it selects what plain FPS selects"
+TECHNIQUE = 'Hypothesis PBT with harness-owned clock (all 128 calibration outcomes enumerated), brute-force distance oracle checked after every step, differential vs plain FPS'
+LEVEL = 'Generated-input exploration plus a complete enumeration of the timing-calibration outcomes on fixed data sets: the distance table is compared with the true minima after every selection step (wrapper), each selection is a farthest candidate, identical to FPS when tie-free. No absence claim: strength = the counted distinct non-trivial cases in the evidence.'
 BUDGET = {"quick": 500, "thorough": 6000}
 EXHAUSTIVE_PARTS = {
     "quick": ["all 128 outcomes of the 7-step timing bisection (harness-owned clock) x 2 fixed clustered data sets"],
